@@ -35,6 +35,18 @@ def via_builder(prog, seed=None, native=None):
     class Unresolvable(Exception):
         pass
 
+    def peek():
+        """Build the circuit as it stands (a builder makes "a full Circuit on demand") and go on adding to the
+        child builders handed out earlier: the final build must see everything."""
+        if seed is not None and not in_macro[0] and rng.random() < 0.15:
+            choices.append("intermediate-build")
+            try:
+                b.build()
+            except Exception:
+                pass
+
+    in_macro = [False]
+
     def obj_arg(a, params, must):
         """Argument of a gate statement.  `params` = names bound by the enclosing macro (kept as
         names); `must` = the enclosing statement is built eagerly, out of the circuit's context, so
@@ -95,11 +107,13 @@ def via_builder(prog, seed=None, native=None):
                 bb.gate(s[1], *args)
         elif k in ("sequential_block", "parallel_block"):
             nb = bb.block(parallel=(k == "parallel_block"))
+            peek()
             for x in s[1:]:
                 emit(nb, x, params, must)
         elif k == "subcircuit_block":
             c = s[1]
             nb = bb.subcircuit() if c == "" else bb.subcircuit(count_arg(c, params, must))
+            peek()
             for x in s[2:]:
                 emit(nb, x, params, must)
         elif k == "loop":
@@ -165,13 +179,16 @@ def via_builder(prog, seed=None, native=None):
             e = eager()
             for attempt in (e, False):
                 inner = ParallelBlockBuilder() if body[0] == "parallel_block" else SequentialBlockBuilder()
+                in_macro[0] = True
                 try:
                     for x in body[1:]:
                         emit(inner, x, set(params), attempt)
                 except Unresolvable:
+                    in_macro[0] = False
                     if not attempt:
                         raise
                     continue
+                in_macro[0] = False
                 choices.append("macro-eager" if attempt else "macro-unevaluated")
                 b.macro(name, params, inner, unevaluated=not attempt)
                 break
